@@ -1012,6 +1012,111 @@ class C08(Prop):
         return None
 
 
+def ctor_cases(tier, rng, k, n):
+    """C19: every constructor / From impl on values whose components are pairwise different"""
+    rng = rng.fork("ctor%d" % k)
+    count = (8000 if tier == "quick" else 150000) // n
+    def distinct(nbytes, howmany):
+        seen, out = set(), []
+        while len(out) < howmany:
+            b = rng.bytes(nbytes) if not rng.chance(1, 6) else bytes([rng.choice([0, 1, 255])]) * nbytes
+            if b not in seen:
+                seen.add(b)
+                out.append(b)
+        return out
+    def ports():
+        p = rng.below(65536)
+        q = rng.below(65536)
+        while q == p:
+            q = rng.below(65536)
+        return p, q
+    for _ in range(count):
+        pick = rng.below(8)
+        sp, dp = ports()
+        if pick == 0:
+            a, b = distinct(4, 2)
+            yield ("ctor-ip4", ("ip4new", "%s,%s,%d,%d" % (hx(a), hx(b), sp, dp)), {})
+        elif pick == 1:
+            a, b = distinct(16, 2)
+            yield ("ctor-ip6", ("ip6new", "%s,%s,%d,%d" % (hx(a), hx(b), sp, dp)), {})
+        elif pick == 2:
+            a = bytearray(rng.bytes(108))
+            b = bytearray(a)
+            b[rng.below(108)] ^= 1 + rng.below(255)      # paths differing in one byte
+            yield ("ctor-unix", ("unix", "%s,%s" % (hx(bytes(a)), hx(bytes(b)))), {})
+        elif pick in (3, 4, 5, 6):
+            fam = [(4, 4), (6, 6), (4, 6), (6, 4)][pick - 3]
+            parts = []
+            for f, port in zip(fam, (sp, dp)):
+                if f == 4:
+                    parts.append("4,%s,%d" % (hx(rng.bytes(4)), port))
+                else:
+                    parts.append("6,%s,%d,%d,%d" % (hx(rng.bytes(16)), port, rng.below(1 << 32), rng.below(1 << 32)))
+            yield ("ctor-pair", ("pair", ",".join(parts)), {"fam": fam})
+        else:
+            v = rng.bytes(rng.below(20))
+            yield ("ctor-tlv", ("tlv", "%d,%s" % (rng.below(256), hx(v))), {})
+    if k == 0:
+        for t in range(12):
+            yield ("ctor-type", ("type", str(t)), {})
+        yield ("ctor-default", ("default1", "-"), {})
+        yield ("ctor-hdr", ("hdr1", "50524f585920554e4b4e4f574e0d0a,4,01020304,05060708,1,2"), {})
+
+
+class C19(Prop):
+    id = "C19"
+    projection_name = "ctor (public fields of the constructed values, variant of the resulting Addresses)"
+    streams = (ctor_cases,)
+    trusted_extra = ("the theorems of Props/C19.v are reflexivity facts about Model/Ctor.v; the property is decided by the tie "
+                     "(field-by-field comparison with the real constructors on pairwise different components)",)
+
+    def groups(self, stream, e, meta):
+        yield ("ctor", ["ctor %s %s" % e])
+
+    def classify(self, case, line):
+        return case.split(" ")[1] + " " + re.sub(r"=[^ ]*", "", line)[:30] + (" mixed" if "V1=U" in line and case.split(" ")[1] == "pair" else "")
+
+    def neighbours(self, case, rng):
+        return iter(())
+
+    def oracle(self, tag, cases, impl, spec, meta):
+        _, kind, args = (cases[0].split(" ") + ["-"])[:3]
+        f = args.split(",")
+        line = impl[0]
+        if line == "PANIC":
+            return "constructor panicked"
+        if kind in ("ip4new", "ip6new"):
+            n = "4" if kind == "ip4new" else "6"
+            sa, da, sp, dp = f
+            want = "F=%s/%s/%s/%s V1=%s/%s/%s/%s/%s V2=%s/%s/%s/%s/%s N1=%s/%s/%s/%s/%s" % (sa, da, sp, dp, n, sa, da, sp, dp, n, sa, da, sp, dp, n, sa, da, sp, dp)
+            if line != want:
+                return "%s(%s): an argument ended up in the wrong role: %s" % (kind, args, line)
+        elif kind == "unix":
+            if line != "F=%s/%s V2=X/%s/%s" % (f[0], f[1], f[0], f[1]):
+                return "Unix::new: source / destination swapped or altered"
+        elif kind == "pair":
+            if f[0] == "4":
+                s, rest = (f[1], f[2]), f[3:]
+            else:
+                s, rest = (f[1], f[2]), f[5:]
+            d = (rest[1], rest[2])
+            if f[0] == rest[0]:
+                n = f[0]
+                want = "V1=%s/%s/%s/%s/%s V2=%s/%s/%s/%s/%s" % (n, s[0], d[0], s[1], d[1], n, s[0], d[0], s[1], d[1])
+            else:
+                want = "V1=U V2=N"
+            if line != want:
+                return "From<(SocketAddr, SocketAddr)>: expected %s, got %s" % (want, line)
+        elif kind == "type":
+            codes = [1, 2, 3, 4, 5, 0x20, 0x21, 0x22, 0x23, 0x24, 0x25, 0x30]
+            if line != "C=%d" % codes[int(f[0])]:
+                return "u8::from(Type) is not the registered code"
+        elif kind == "tlv":
+            if not line.endswith("from_eq=1 owned_eq=1") or not line.startswith("K=%s V=%s " % (f[0], f[1])):
+                return "TypeLengthValue::new / From / to_owned altered kind or value"
+        return None
+
+
 def is_utf8(b):
     try:
         b.decode("utf-8")
@@ -1070,7 +1175,7 @@ class XSTD(Prop):
         return iter(())
 
 
-REGISTRY = {c.id: c for c in (XV1(), XC01(), XSTD(), C01(), C04(), C05(), C06(), C08(), C12(), C15(), C16(), C18(), C02(), C07(), C09(), C10(), C11(), C13(), C14(), C17(), C20())}
+REGISTRY = {c.id: c for c in (XV1(), XC01(), XSTD(), C01(), C04(), C05(), C06(), C08(), C12(), C15(), C16(), C18(), C19(), C02(), C07(), C09(), C10(), C11(), C13(), C14(), C17(), C20())}
 
 
 def get(prop):
